@@ -303,6 +303,20 @@ var topRules = []topRule{
 	{name: "loop-result-after-block-return", good: "fn b(c: bool) -> int { if c { { return 1; }; } 2 }\nfn f(s: str) -> str { loop { return s; } }\nfn main() { println(b(true), f(\"x\")); }\n", bad: "fn b(c: bool) -> int { if c { { return 1; }; } 2 }\nfn f(s: str) -> str { loop { if s == \"\" { break; } return s; } }\nfn main() { println(b(true), f(\"x\")); }\n"},
 	{name: "loop-result-throw-inside", good: "fn f(c: bool) -> int { loop { if c { throw(\"x\"); } return 1; } }\nfn main() { println(f(false)); }\n", bad: "fn f(c: bool) -> int { loop { if c { break; } return 1; } }\nfn main() { println(f(false)); }\n"},
 	{name: "loop-result-in-lambda-break", good: "fn f() -> int { loop { let l = fn(n: int) -> int { let k = n; for i in 0..3 { if i > k { break; } } k }; return l(1); } }\nfn main() { println(f()); }\n", bad: "fn f(c: bool) -> int { loop { let l = fn(n: int) -> int { n }; if c { break; } return l(1); } }\nfn main() { println(f(true)); }\n"},
+	// function types: a function value fits a function type when parameters agree by POSITION (name and type) and the
+	// result agrees; the bad twins differ in exactly one of those
+	{name: "fn-type-argument", good: "fn k(a: int, b: str) -> bool { b.len() > a }\nfn g(h: fn(a: int, b: str) -> bool) -> bool { h(1, \"s\") }\nfn main() { println(g(k)); }\n", bad: "fn k(a: str, b: str) -> bool { b.len() > a.len() }\nfn g(h: fn(a: int, b: str) -> bool) -> bool { h(1, \"s\") }\nfn main() { println(g(k)); }\n"},
+	{name: "fn-type-argument-second-param", good: "fn k(a: int, b: str) -> bool { b.len() > a }\nfn g(h: fn(a: int, b: str) -> bool) -> bool { h(1, \"s\") }\nfn main() { println(g(k)); }\n", bad: "fn k(a: int, b: int) -> bool { b > a }\nfn g(h: fn(a: int, b: str) -> bool) -> bool { h(1, \"s\") }\nfn main() { println(g(k)); }\n"},
+	{name: "fn-type-param-order", good: "fn k(a: int, b: str) -> bool { b.len() > a }\nfn g(h: fn(a: int, b: str) -> bool) -> bool { h(1, \"s\") }\nfn main() { println(g(k)); }\n", bad: "fn k(b: str, a: int) -> bool { b.len() > a }\nfn g(h: fn(a: int, b: str) -> bool) -> bool { h(1, \"s\") }\nfn main() { println(g(k)); }\n"},
+	{name: "fn-type-three-params", good: "fn k(a: int, b: str, c: float) -> int { a }\nfn g(h: fn(a: int, b: str, c: float) -> int) -> int { h(1, \"s\", 0.5) }\nfn main() { println(g(k)); }\n", bad: "fn k(a: float, b: str, c: float) -> int { 1 }\nfn g(h: fn(a: int, b: str, c: float) -> int) -> int { h(1, \"s\", 0.5) }\nfn main() { println(g(k)); }\n"},
+	{name: "fn-type-three-params-middle", good: "fn k(a: int, b: str, c: float) -> int { a }\nfn g(h: fn(a: int, b: str, c: float) -> int) -> int { h(1, \"s\", 0.5) }\nfn main() { println(g(k)); }\n", bad: "fn k(a: int, b: float, c: float) -> int { a }\nfn g(h: fn(a: int, b: str, c: float) -> int) -> int { h(1, \"s\", 0.5) }\nfn main() { println(g(k)); }\n"},
+	{name: "fn-type-param-count", good: "fn k(a: int, b: str) -> bool { b.len() > a }\nfn g(h: fn(a: int, b: str) -> bool) -> bool { h(1, \"s\") }\nfn main() { println(g(k)); }\n", bad: "fn k(a: int) -> bool { a > 0 }\nfn g(h: fn(a: int, b: str) -> bool) -> bool { h(1, \"s\") }\nfn main() { println(g(k)); }\n"},
+	{name: "fn-type-result", good: "fn k(a: int, b: str) -> bool { b.len() > a }\nfn g(h: fn(a: int, b: str) -> bool) -> bool { h(1, \"s\") }\nfn main() { println(g(k)); }\n", bad: "fn k(a: int, b: str) -> int { b.len() + a }\nfn g(h: fn(a: int, b: str) -> bool) -> bool { h(1, \"s\") }\nfn main() { println(g(k)); }\n"},
+	{name: "fn-type-let", good: "fn k(a: int, b: str) -> int { a + b.len() }\nfn main() { let h: fn(a: int, b: str) -> int = k; println(h(1, \"s\")); }\n", bad: "fn k(a: str, b: str) -> int { a.len() + b.len() }\nfn main() { let h: fn(a: int, b: str) -> int = k; println(h(1, \"s\")); }\n"},
+	{name: "fn-type-let-lambda", good: "fn main() { let h: fn(a: int, b: str) -> int = fn(a: int, b: str) -> int { a + b.len() }; println(h(1, \"s\")); }\n", bad: "fn main() { let h: fn(a: int, b: str) -> int = fn(a: int, b: int) -> int { a + b }; println(h(1, \"s\")); }\n"},
+	{name: "fn-type-return", good: "fn k(a: int, b: str) -> int { a + b.len() }\nfn mk() -> fn(a: int, b: str) -> int { k }\nfn main() { println(mk()(1, \"s\")); }\n", bad: "fn k(a: str, b: int) -> int { a.len() + b }\nfn mk() -> fn(a: int, b: str) -> int { k }\nfn main() { println(mk()(1, \"s\")); }\n"},
+	{name: "fn-type-nested", good: "fn k(a: int, b: str) -> int { a + b.len() }\nfn ap(f: fn(a: int, b: str) -> int, x: int) -> int { f(x, \"s\") }\nfn g(h: fn(f: fn(a: int, b: str) -> int, x: int) -> int) -> int { h(k, 1) }\nfn main() { println(g(ap)); }\n", bad: "fn k(a: int, b: str) -> int { a + b.len() }\nfn ap(f: fn(a: int, b: int) -> int, x: int) -> int { f(x, 2) }\nfn g(h: fn(f: fn(a: int, b: str) -> int, x: int) -> int) -> int { h(k, 1) }\nfn main() { println(g(ap)); }\n"},
+	{name: "fn-type-call-argument-of-value", good: "fn k(a: int, b: str) -> int { a + b.len() }\nfn main() { let h = k; println(h(1, \"s\")); }\n", bad: "fn k(a: int, b: str) -> int { a + b.len() }\nfn main() { let h = k; println(h(\"s\", 1)); }\n"},
 	{name: "missing-main", good: "fn main() { println(1); }\n", bad: "fn other() { println(1); }\n"},
 	{name: "main-with-parameters", good: "fn main() { println(1); }\n", bad: "fn main(x: int) { println(x); }\n"},
 	{name: "main-with-return-type", good: "fn main() { println(1); }\n", bad: "fn main() -> int { 1 }\n"},
